@@ -230,6 +230,47 @@ def rule_iocheck(ctx, fx, config):
               "io_error() no longer converts the stored error into Error::IOError", config, ctx.where(g))
 
 
+def rule_no_output_after_held_error(ctx, fx, config):
+    """PREFIX: what the serializer writes after a failed write is not a prefix of the fault-free output any more.  A
+    serializer function that keeps the Result of a nested serialization in a local (instead of propagating it at once)
+    writes nothing before it returns that local."""
+    n = 0
+    writers = ("write_str", "write_char", "write_fmt")
+    for f in sorted(fx.fns.values(), key=lambda f: f.npath):
+        if not f.file.endswith("src/ser.rs"):
+            continue
+        for b, t in f.calls():
+            if not (t["f"].get("trait") == "serde::Serialize" and t["f"].get("name") == "serialize"):
+                continue
+            d = t["dest"]
+            if d["pr"] or t["t"] is None:
+                continue
+            # is the destination returned as is (moved into _0) rather than branched on right away?
+            rets = []
+            for rb, ri, s_ in f.stmts():
+                if s_["k"] == "assign" and s_["p"]["l"] == 0 and not s_["p"]["pr"] and s_["rv"]["k"] == "use":
+                    src = s_["rv"]["o"].get("mv") or s_["rv"]["o"].get("cp")
+                    if src is not None and not src["pr"]:
+                        v = f.sym_local(src["l"])
+                        if src["l"] == d["l"] or (v[0] == "call" and len(v) > 3 and v[3] == b):
+                            rets.append(rb)
+            if not rets:
+                continue
+            n += 1
+            ctx.saw(f)
+            between = f.reachable([t["t"]])
+            outs = []
+            for wb, wt in f.calls():
+                if wb in between and wb != b and any(wb in f.reachable([t["t"]]) and r in f.reachable([wb]) for r in rets):
+                    c = fx.callee(wt)
+                    cd = fx.callee_decl(wt)
+                    if last_seg(cd) in writers or c.endswith(("::newline", "::write_indent", "::write_space_if_pending", "::write_end_of_scalar")):
+                        outs.append(wb)
+            ctx.check(not outs, "WRITER", "C10:WRITER:no-output-after-held-error:%s" % f.npath.split("::")[-1], "nothing is written between a nested serialization and the return of its (held) result",
+                      "%s keeps the Result of a nested serialization in a local, writes more output (line(s) %s) and only then returns it: after a failed write the output is no longer a prefix of the fault-free output" % (f.npath, sorted({f.blocks[x]["term"].get("ln") for x in outs})), config, ctx.where(f, b))
+    ctx.check(True, "WRITER", "C10:WRITER:no-output-after-held-error:census", "functions holding a nested result: %d" % n, "", config, None)
+
+
 def rule_skip_end(ctx, fx, config):
     """SKIP-END: skip_to_next_document() answers `false` both for a clean end of the stream and for a stream cut short by a
     reader failure / the byte cap (the char source just ends).  An iterator that stops on that answer consults finish(),
@@ -334,3 +375,4 @@ def run(ctx):
         rule_skip_end(ctx, fx, config)
         rule_discard(ctx, fx, config)
         rule_writer(ctx, fx, config)
+        rule_no_output_after_held_error(ctx, fx, config)
